@@ -23,6 +23,11 @@ class WorkerClosedError(RuntimeError):
 
 
 class PersistentWorker(Worker):
+    # child-side state, set up by `_init_child`; the defaults keep `_cleanup` usable (end-of-results message,
+    # final report) for a child which is stopped before it got that far
+    _counter = 0
+    _stop = False
+
     def __init__(self, target, _results_pipe, **kwargs):
         if _results_pipe is None:
             raise ValueError('_results_pipe should not be None')
